@@ -525,8 +525,9 @@ fn _factor_inner<T: FloatT>(
     next_colspace.copy_from_slice(&Lp[0..Lp.len() - 1]);
 
     if !logical_factor {
-        // First element of the diagonal D.
-        D[0] = Ax[0];
+        // First element of the diagonal D.  The first column
+        // is empty if the (permuted) matrix has no (0,0) entry
+        D[0] = if Ap[1] > Ap[0] { Ax[0] } else { T::zero() };
         if regularize_enable {
             let sign = T::from_i8(Dsigns[0]).unwrap();
             if D[0] * sign < regularize_eps {
